@@ -205,8 +205,9 @@ def _verify(item):
         if 'stream' in info:
             variants += [[sel(getattr(h0, side), info['stream']) != 0, sel(getattr(h0, side), info['stream']) != sel(getattr(h0, side), self_)],
                          [sel(h0.kind, info['stream']) == H.MISSING]]
-        if os.environ.get('VERIF_TIER', 'quick') != 'thorough' and len(variants) > 4:
-            variants = [variants[0], variants[3]] + variants[-3:-1]
+        if os.environ.get('VERIF_TIER', 'quick') != 'thorough':
+            # quick tier: two sampled pre-states per operation (the general one and the most specific one); thorough: all
+            variants = [variants[0], variants[-2] if len(variants) > 4 else variants[-1]]
         out['cross_checks'] = []
         for extra_ in variants:
             try:
